@@ -693,6 +693,32 @@ TRIAGE[("C18", "R7", "qkeras/estimate.py::analyze_accumulator",
                 "on the real code before the fix: analyze_accumulator "
                 "returns 3, the layer outputs 8.5 for input (-2,-2) "
                 "(log2 = 3.09)"}
+TRIAGE[("C08", "R5", Q + "quantized_bits.__call__",
+        "stochastic-option-without-random-draw")] = {
+    "what_fails": "quantized_bits with bits=1, keep_negative=True takes the "
+                  "sign-function branch, which never looks at "
+                  "use_stochastic_rounding: in training every input between "
+                  "the two codes is rounded to the nearer one (expectation "
+                  "sign(x), not x); quantized_linear honours the option in "
+                  "the same format",
+    "replayed": "K.learning_phase stubbed to True, quantized_bits(1,0,1,"
+                "alpha=1.0,use_stochastic_rounding=True)(2000 x 0.3) -> all "
+                "1.0 (mean 1.0); the 2-bit format gives {0, 0.5}, mean 0.30"}
+for _u in ("quantized_po2", "quantized_relu_po2"):
+  TRIAGE[("C08", "R5", Q + _u + ".__call__",
+          "stochastic-option-without-random-draw")] = {
+      "what_fails": "%s(use_stochastic_rounding=True, log2_rounding="
+                    "'floor'): power_of_two_clip tests the floor mode first, "
+                    "so the stochastic option is ignored and every input is "
+                    "rounded down to a power of two in training (expectation "
+                    "below the input); recorded, not repaired: which of the "
+                    "two explicitly set options should win is not "
+                    "documented" % _u,
+      "replayed": "K.learning_phase stubbed to True, quantized_po2(4,"
+                  "use_stochastic_rounding=True,log2_rounding='floor')"
+                  "(2000 x 0.3) -> all 0.25; with log2_rounding='rnd' "
+                  "{0.25, 0.5}, mean 0.30 (same code path in "
+                  "quantized_relu_po2)"}
 _ADD = "qkeras/qtools/quantized_operators/multiplier_impl.py::Adder"
 for _k in (("max", "both-capped", "mixed-sign"), ("max", "no-cap", "mixed-sign"),
            ("max", "one-sided-cap", "mixed-sign"),
